@@ -4,6 +4,7 @@ run the property's quick check against it (tools/seedtest.sh), store it as seede
 import json, os, re, shutil, subprocess, sys
 ROOT = os.path.dirname(os.path.dirname(os.path.abspath(__file__)))
 pid, out = sys.argv[1], sys.argv[2]
+offset = int(sys.argv[3]) if len(sys.argv) > 3 else 0   # numbering offset for a later round of seeded changes
 dev = dict(os.environ)
 for i in sorted(d for d in os.listdir(out) if d.isdigit()):
     src = os.path.join(out, i)
@@ -16,7 +17,8 @@ for i in sorted(d for d in os.listdir(out) if d.isdigit()):
     viol = [l for l in lines if l.startswith("VIOLATION")]
     concrete = [l for l in viol if "no-failing-input-found" not in l]
     summary = [l[:300] for l in lines if "smallest:" in l][:2]
-    dst = os.path.join(ROOT, "seeded", f"{pid}-{i}")
+    n = int(i) + offset
+    dst = os.path.join(ROOT, "seeded", f"{pid}-{n}")
     os.makedirs(dst, exist_ok=True)
     for f in ("patch.diff", "demo_test.go", "demo_path.txt"):
         if os.path.exists(os.path.join(src, f)):
@@ -28,8 +30,8 @@ for i in sorted(d for d in os.listdir(out) if d.isdigit()):
         pass
     meta.update({"base": subprocess.run(["git","-C","/repo","rev-parse","--short","HEAD"],capture_output=True,text=True).stdout.strip(), "property": pid, "confirmed": confirmed, "confirm_output": c.stdout.strip()[-300:],
                  "confirmed_by": "tools/confirm_seed.sh (demo passes clean; suite passes with patch; demo fails with patch)",
-                 "check_run": f"tools/seedtest.sh {pid} seeded/{pid}-{i}/patch.diff",
+                 "check_run": f"tools/seedtest.sh {pid} seeded/{pid}-{n}/patch.diff",
                  "check_outcome": "caught with a concrete failing input" if concrete else ("caught, no failing input found" if viol else "MISSED"),
                  "check_violation_lines": viol, "check_summary": summary})
     json.dump(meta, open(os.path.join(dst, "meta.json"), "w"), indent=1)
-    print(f"{pid}-{i}: confirmed={confirmed} -> {meta['check_outcome']}  {summary[0][:200] if summary else ''}")
+    print(f"{pid}-{n}: confirmed={confirmed} -> {meta['check_outcome']}  {summary[0][:200] if summary else ''}")
